@@ -68,6 +68,11 @@ static void emitFenSer(std::ostream& os, const Position& pos) {
     Position de;
     de.deSerialize(sd);
     os << "{\"e\":\"Ser\",\"re\":{" << stateFields(de) << "},\"eq\":" << (de == pos ? "true" : "false") << "}\n";
+    // decode buffers are reused in the engine (worker threads, tree log reader): a long-lived object that still holds the previously
+    // decoded position must come out identical as well
+    static Position reused = TextIO::readFEN(TextIO::startPosFEN);
+    reused.deSerialize(sd);
+    os << "{\"e\":\"Ser\",\"re\":{" << stateFields(reused) << "},\"eq\":" << (reused == pos ? "true" : "false") << "}\n";
     fenEventsG++;
 }
 
